@@ -8,7 +8,7 @@
 (* the Rust harness (conformance A).  The invariants are the field axioms:   *)
 (* they check the ORACLE (Tower) itself, independently of any code.          *)
 (***************************************************************************)
-EXTENDS FieldMachine, Json, IOUtils, VerifIO
+EXTENDS FieldMachine, Json, IOUtils, VerifIO, FiniteSets
 
 Cat   == JsonDeserialize("/verif/spec/toy/catalogue.json")
 Cfg   == Cat.fields[IOEnv.CFG]
@@ -17,13 +17,27 @@ MCK   == Len(Cfg.lv)
 MODE  == IOEnv.MODE            \* "arith" | "unary" | "conv"
 MCNREG == IF MODE = "arith" THEN 2 ELSE 1
 
-Elems == TElems(F, K)
+\* operand alphabet: all elements, or (for towers too large to enumerate) the structured
+\* sub-alphabet "at most NZ non-zero coordinates over the prime field, drawn from {1, 2, p-1}"
+\* (this is where Karatsuba / sparse shortcuts differ) plus a few dense elements
+DegT   == TExtDeg(F, K)
+CoordV == {1, 2, F.p - 1}
+SparseCoords(nz) ==
+    IF nz = 1 THEN {[i \in 1..DegT |-> IF i = a THEN x ELSE 0] : a \in 1..DegT, x \in {0} \cup CoordV}
+    ELSE {[i \in 1..DegT |-> IF i = a THEN x ELSE IF i = b THEN y ELSE 0] :
+              a \in 1..DegT, b \in 1..DegT, x \in {0} \cup CoordV, y \in {0} \cup CoordV}
+DenseCoords == {[i \in 1..DegT |-> 1], [i \in 1..DegT |-> F.p - 1], [i \in 1..DegT |-> (i * i + 1) % F.p],
+                [i \in 1..DegT |-> (3 * i + 2) % F.p]}
+SparseElems(nz) == {TUnflatten(F, K, c \o <<>>) : c \in SparseCoords(nz) \cup DenseCoords}
+Elems == IF Cfg.alpha = "all" THEN TElems(F, K)
+         ELSE SparseElems(IF MODE = "arith" THEN 1 ELSE 2)
 
 MCInit == /\ regs \in [Reg -> (IF MODE = "conv" THEN {Zero} ELSE Elems)]
           /\ ev = [op |-> "init"]
 
 \* exponents for pow: boundary values around the group order
-PowExps == {0, 1, 2, 3, F.p - 1, F.p, F.p + 1} \cup (IF K = 0 THEN {} ELSE {TOrder(F, K) - 1, TOrder(F, K)})
+Small == Cfg.alpha = "all"      \* the field is small enough to enumerate (and its order fits 31 bits)
+PowExps == {0, 1, 2, 3, F.p - 1, F.p, F.p + 1} \cup (IF K = 0 \/ ~Small THEN {} ELSE {TOrder(F, K) - 1, TOrder(F, K)})
 FrobNs  == 0..(TExtDeg(F, K) + 1)
 
 IntTypes == <<[ty |-> "u8",  bits |-> 8,  signed |-> FALSE], [ty |-> "u16", bits |-> 16, signed |-> FALSE],
@@ -57,8 +71,8 @@ UnaryNext ==
     \/ \E e \in PowExps : Pow(1, e)
     \/ \E n \in FrobNs : Frob(1, n)
     \/ \E op \in {"is_zero", "is_one", "legendre"} : Query(op, 1, 1)
-    \/ \E y \in Elems : Sqrt(1, TRUE, y)
-    \/ Sqrt(1, FALSE, Zero)
+    \/ \E y \in (IF Cfg.alpha = "all" THEN Elems ELSE {}) : Sqrt(1, TRUE, y)
+    \/ (Cfg.alpha = "all" /\ Sqrt(1, FALSE, Zero))
     \/ Bin("add", 1, 1) \/ Bin("sub", 1, 1) \/ Bin("mul", 1, 1)
     \/ BatchInv(<<1>>, 0)
     \/ (K = 0 /\ IntoBigInt(1))
@@ -71,9 +85,12 @@ ConvNext ==
     \/ (K = 0 /\ \E be \in BOOLEAN, bs \in ByteStrs(2) : FromBytesMod(1, be, bs))
     \/ (K = 0 /\ \E v \in 0..(2 * F.p + 2) : FromBigInt(1, v))
 
-MCNext == CASE MODE = "arith" -> ArithNext
-            [] MODE = "unary" -> UnaryNext
-            [] MODE = "conv"  -> ConvNext
+\* every operand tuple of the alphabet is an initial state; successors are not explored further
+\* (for the complete alphabets they are initial states anyway)
+MCNext == /\ ev.op = "init"
+          /\ CASE MODE = "arith" -> ArithNext
+               [] MODE = "unary" -> UnaryNext
+               [] MODE = "conv"  -> ConvNext
 
 View == regs
 
@@ -97,13 +114,14 @@ AxiomsOK ==
          /\ TMul(F, K, A3, A2) = TAdd(F, K, TMul(F, K, A1, A2), A2)
          /\ TMul(F, K, TMul(F, K, A1, A2), A3) = TMul(F, K, A1, TMul(F, K, A2, A3))
     \* Frobenius (p-th power) is a ring homomorphism fixing the prime field, of order ext. degree
-    /\ TFrob(F, K, TAdd(F, K, A1, A2), 1) = TAdd(F, K, TFrob(F, K, A1, 1), TFrob(F, K, A2, 1))
-    /\ TFrob(F, K, TMul(F, K, A1, A2), 1) = TMul(F, K, TFrob(F, K, A1, 1), TFrob(F, K, A2, 1))
-    /\ TFrob(F, K, A1, TExtDeg(F, K)) = A1
+    /\ (Small \/ MODE = "unary") =>
+       /\ TFrobRaw(F, K, A1, TExtDeg(F, K)) = A1
+       /\ TFrob(F, K, TAdd(F, K, A1, A2), 1) = TAdd(F, K, TFrob(F, K, A1, 1), TFrob(F, K, A2, 1))
+       /\ TFrob(F, K, TMul(F, K, A1, A2), 1) = TMul(F, K, TFrob(F, K, A1, 1), TFrob(F, K, A2, 1))
     \* Euler's criterion agrees with the existence of a root
-    /\ MODE = "unary" => /\ (TIsSquare(F, K, A1) <=> \E y \in Elems : TSqr(F, K, y) = A1)
+    /\ (MODE = "unary" /\ Cfg.alpha = "all") => /\ (TIsSquare(F, K, A1) <=> \E y \in Elems : TSqr(F, K, y) = A1)
                          /\ (TIsSquareEuler(F, K, A1) <=> TIsSquare(F, K, A1))
-    /\ TMul(F, K, A1, A2) = TMulGen(F, K, A1, A2)
+    /\ Small => TMul(F, K, A1, A2) = TMulGenD(F, K, A1, A2)
     \* the norm is multiplicative and lands in the subfield (by construction), level K >= 1
     /\ K >= 1 => TNormDown(F, K, TMul(F, K, A1, A2)) = TMul(F, K-1, TNormDown(F, K, A1), TNormDown(F, K, A2))
 =============================================================================
